@@ -80,9 +80,15 @@ func recacheAggregatorContext(ctx sdk.Context, agc *aggregator.AggregatorContext
 	forceSealedAt := int64(0)
 	if int64(h.Block) >= from {
 		from = int64(h.Block) + 1
-		// the replay starts right after a validator-set change: in that block's EndBlock the live node
-		// force-sealed every open round before it prepared the rounds of the block
-		forceSealedAt = int64(h.Block)
+	}
+	// a validator-set change inside the window, or in the block right before it: in that block's EndBlock
+	// the live node force-sealed every open round before it prepared the rounds of the block. the block in
+	// which the oracle state was first initialised also bounds the window (it writes a validator update
+	// block too) but sealed nothing, so the force-seal has its own mark.
+	// #nosec G115
+	if fs, ok := k.GetForceSealBlock(ctx); ok && int64(fs)+1 >= from && int64(fs) < to {
+		from = int64(fs) + 1
+		forceSealedAt = int64(fs)
 	}
 
 	logger.Info("recacheAggregatorContext", "from", from, "to", to, "height", ctx.BlockHeight())
